@@ -198,6 +198,12 @@ pub fn families(prop: &str, tier: Tier) -> Vec<Family> {
             let lists = pattern_lists();
             f.push(Family { name: "mode-graphs-2 (subset)".into(), cfgs: mode_graphs(2, &lists, if q { 7 } else { 1 }), inputs: inputs(&['a', 'b', 'x'], if q { 3 } else { 4 }), ops: ops.clone(), describe: "2 modes x 6 pattern lists x every 7th (thorough: every) transition table".into() });
             f.push(Family { name: "gaps".into(), cfgs: gap_cfgs(), inputs: inputs(&['a', 'b', 'x', '\n'], if q { 4 } else { 5 }), ops: ops.clone(), describe: "pattern sets with characters nothing matches".into() });
+            let mut mb = newline_cfgs();
+            mb.push(Cfg::single(vec![CPat::new("[aé]+", 0), CPat::new("b", 1), CPat::new("€", 2)]));
+            mb.push(Cfg { modes: vec![mode("A", &[("é", 0), ("a", 1)], &[(0, 1)]), mode("B", &[("é+", 0), ("a", 1), ("b", 2)], &[(1, 0)])] });
+            let mut ops_mb = ops.clone();
+            ops_mb.peeks = vec![1, 2, 3];
+            f.push(Family { name: "multi-byte".into(), cfgs: mb, inputs: inputs(&['a', 'b', 'é', '€', '\n'], if q { 4 } else { 5 }), ops: ops_mb, describe: "tokens containing 2- and 3-byte characters, newline configurations of C09; peek_n(1..3)".into() });
             let mut ops2 = ops.clone();
             ops2.offsets = Offsets::All;
             ops2.adv = vec![0];
